@@ -37,6 +37,7 @@ type engine struct {
 	errorStringPtr     types.Type
 	ctxType            types.Type
 	intrCache          sync.Map
+	harnessFn          sync.Map
 	procs              int
 	known              []KnownFinding
 	verbose            bool
@@ -51,6 +52,23 @@ type engine struct {
 	loadSeconds        float64
 	fnTotals           map[string]int64
 	fnMu               sync.Mutex
+}
+
+func (e *engine) isHarnessFn(fn *ssa.Function) bool {
+	if v, ok := e.harnessFn.Load(fn); ok {
+		return v.(bool)
+	}
+	f := fn
+	for f.Parent() != nil {
+		f = f.Parent()
+	}
+	is := false
+	if f.Pos().IsValid() {
+		name := filepath.Base(e.prog.Fset.Position(f.Pos()).Filename)
+		is = strings.HasPrefix(name, "zz_verif") && !strings.HasPrefix(name, "zz_verif_smoke")
+	}
+	e.harnessFn.Store(fn, is)
+	return is
 }
 
 func (e *engine) knownRegions(harness, label string) []*KnownFinding {
@@ -296,7 +314,7 @@ func (e *engine) newMachine(h *harnessRun, solver *Solver, item workItem, replay
 	m := &machine{eng: e, h: h, solver: solver, prefix: item.prefix, replay: replay,
 		globals: map[*ssa.Global]*value{}, doneCh: make(chan struct{}),
 		fnCounts: map[*ssa.Function]*int64{}, nameCount: map[string]int{}, varByName: map[string]*Term{},
-		notes: map[string]*Term{}, mutexes: map[*value]*mutexState{}, wgs: map[*value]*wgState{}, pools: map[*value][]value{},
+		notes: map[string]*Term{}, mutexes: map[*value]*mutexState{}, wgs: map[*value]*wgState{}, pools: map[*value][]value{}, poolVC: map[*value][]vclock{},
 		mayBeFull: map[*chanObj]bool{}, reached: map[string]bool{}, replayHit: map[string]bool{}, addrs: map[*value]uint64{},
 		idealRB: true, poolMode: 1, hashMode: 1,
 		clock: mkBV(64, 1_000_000_000_000),
